@@ -633,3 +633,93 @@ Proof.
     apply F. intros v Hv. destruct (rs_total G None false Hwf Hdeg I) as [_ T0].
     destruct (T0 v Hv) as [T1 _]. destruct T1 as [H|H]; [apply nth_repeat|rewrite H; discriminate|rewrite H; discriminate].
 Qed.
+
+(* ---------- the two side conditions follow from "no duplicate entry in a stored row" ---------- *)
+Lemma remove_first_notin i r : NoDup r -> ~ In i (remove_first i r).
+Proof.
+  induction 1 as [|x r Hx Hr IH]; simpl; [tauto|].
+  destruct (Nat.eqb_spec x i) as [E|E]; [subst; exact Hx|]. intros [H|H]; [congruence|contradiction].
+Qed.
+Lemma remove_first_NoDup i r : NoDup r -> NoDup (remove_first i r).
+Proof.
+  induction 1 as [|x r Hx Hr IH]; simpl; [constructor|].
+  destruct (x =? i); [exact Hr|]. constructor; [|exact IH]. intros H. apply In_remove_first in H. contradiction.
+Qed.
+Lemma offd_move_diag_notin i r : NoDup r -> ~ In i (offd i (move_diag_row i r)).
+Proof.
+  intros H. unfold move_diag_row. destruct (existsb (Nat.eqb i) r) eqn:E.
+  - simpl. rewrite Nat.eqb_refl. apply remove_first_notin. exact H.
+  - intros Hin. apply In_offd in Hin. assert (existsb (Nat.eqb i) r = true); [|congruence].
+    apply existsb_exists. exists i. split; [exact Hin|apply Nat.eqb_refl].
+Qed.
+Lemma offd_move_diag_NoDup i r : NoDup r -> NoDup (offd i (move_diag_row i r)).
+Proof.
+  intros H. unfold move_diag_row. destruct (existsb (Nat.eqb i) r) eqn:E.
+  - simpl. rewrite Nat.eqb_refl. apply remove_first_NoDup. exact H.
+  - destruct r as [|x r]; [constructor|]. simpl. destruct (x =? i); [inversion H; assumption|exact H].
+Qed.
+
+Definition rows_nodup (G : graph) : Prop := forall i, NoDup (nth i G []).
+
+Lemma off_rows_noself G : rows_nodup G -> forall i, ~ In i (nth i (off_rows G) []).
+Proof.
+  intros H i. destruct (Nat.lt_ge_cases i (length G)) as [L|L].
+  - rewrite nth_off_rows by exact L. apply offd_move_diag_notin. apply H.
+  - rewrite nth_overflow by (rewrite off_rows_length; exact L). tauto.
+Qed.
+Lemma off_rows_nodup G : rows_nodup G -> forall i, NoDup (nth i (off_rows G) []).
+Proof.
+  intros H i. destruct (Nat.lt_ge_cases i (length G)) as [L|L].
+  - rewrite nth_off_rows by exact L. apply offd_move_diag_NoDup. apply H.
+  - rewrite nth_overflow by (rewrite off_rows_length; exact L). constructor.
+Qed.
+
+Lemma col_of_row_nodup c i r : NoDup r ->
+  NoDup (map snd (filter (fun p : nat * nat => fst p =? c) (map (fun c' => (c', i)) r))).
+Proof.
+  induction 1 as [|x r Hx Hr IH]; simpl; [constructor|].
+  destruct (Nat.eqb_spec x c) as [E|E]; [|exact IH]. subst x. simpl. constructor; [|exact IH].
+  intros H. apply in_map_iff in H. destruct H as [[a b] [_ H]]. apply filter_In in H. destruct H as [H1 H2].
+  apply in_map_iff in H1. destruct H1 as [c' [E1 H1]]. inversion E1; subst. simpl in H2. apply Nat.eqb_eq in H2. subst. contradiction.
+Qed.
+
+Lemma col_list_nodup_gen c (L : list (nat * list nat)) :
+  NoDup (map fst L) -> (forall ir, In ir L -> NoDup (snd ir)) ->
+  NoDup (map snd (filter (fun p : nat * nat => fst p =? c)
+                         (flat_map (fun ir => map (fun c' => (c', fst ir)) (snd ir)) L))).
+Proof.
+  induction L as [|[i r] L IH]; intros Hnd Hr; simpl; [constructor|].
+  inversion Hnd as [|x0 l0 Hni Hnd']; subst. simpl in Hni. rewrite filter_app, map_app. apply NoDup_app_intro.
+  - apply col_of_row_nodup. apply (Hr (i, r)). left; reflexivity.
+  - apply IH; [exact Hnd'|]. intros ir Hir. apply Hr. right; exact Hir.
+  - intros x Hx Hx2.
+    apply in_map_iff in Hx. destruct Hx as [[a b] [E H]]. apply filter_In in H. destruct H as [H _].
+    apply in_map_iff in H. destruct H as [c' [E1 _]]. inversion E1; subst. simpl in *.
+    apply in_map_iff in Hx2. destruct Hx2 as [[a2 b2] [E2 H2]]. apply filter_In in H2. destruct H2 as [H2 _].
+    apply in_flat_map in H2. destruct H2 as [[j r2] [Hj H3]]. apply in_map_iff in H3. destruct H3 as [c2 [E3 _]].
+    inversion E3; subst. simpl in *. apply Hni.
+    apply in_map_iff. exists (b2, r2). auto.
+Qed.
+
+Lemma map_fst_indexed {A} (l : list A) : map fst (indexed l) = seq 0 (length l).
+Proof.
+  unfold indexed. generalize 0. induction l as [|x l IH]; intros s; simpl; [reflexivity|]. rewrite IH. reflexivity.
+Qed.
+
+Lemma in_degree_bound G : graph_wfb G = true -> rows_nodup G ->
+  forall c, c < length G -> length (nth c (col_lists (off_rows G)) []) < length G.
+Proof.
+  intros Hwf Hnd c Hc. set (R := off_rows G).
+  assert (LR : length R = length G) by apply off_rows_length.
+  assert (ND : NoDup (nth c (col_lists R) [])).
+  { unfold col_lists. rewrite group_by_nth by (rewrite LR; exact Hc). unfold row_pairs.
+    apply col_list_nodup_gen.
+    - rewrite map_fst_indexed. apply seq_NoDup.
+    - intros [i r] Hir. apply (In_indexed R i r []) in Hir. destruct Hir as [_ E]. subst r. simpl.
+      apply off_rows_nodup. exact Hnd. }
+  assert (Hnc : ~ In c (nth c (col_lists R) [])).
+  { intros H. apply In_col_lists in H. destruct H as [_ [_ H]]. apply (off_rows_noself G Hnd c H). }
+  assert (Hincl : incl (c :: nth c (col_lists R) []) (seq 0 (length G))).
+  { intros x [E|H]; apply in_seq; [subst; lia|]. apply In_col_lists in H. rewrite LR in H. lia. }
+  pose proof (NoDup_incl_length (NoDup_cons c Hnc ND) Hincl) as HL. rewrite seq_length in HL. simpl in HL. lia.
+Qed.
